@@ -236,6 +236,20 @@ def run(P, R, tier):
         
             R.bad('C11.d', pr, c, f'`{norm(c)}`: pieces are split into row-group fragments, but every piece is read by its path (the whole file): a file with k row groups is loaded k times',
                   construct='one piece per file')
+    # C11.h: the writer writes the frame it was given: `ddf` reaches dd.to_parquet unchanged (no partition selection, row filter or re-assignment on the way):
+    # a partition "without bounds" still has rows (missing / empty geometries, index, other columns)
+    tw = P.func('spatialpandas.io.parquet', 'to_parquet_dask')
+    fparam = tw.params[0]
+    rebinds = [a for a in walk_own(tw.node) if isinstance(a, (ast.Assign, ast.AugAssign)) and any(isinstance(t, ast.Name) and t.id == fparam
+                                                                                                    for t in (a.targets if isinstance(a, ast.Assign) else [a.target]))]
+    wcalls = [c for c in astq.own_calls(tw) if norm(c.func).split('.')[-1] in ('dd_to_parquet', 'to_parquet') and c.args]
+    R.floor('C11.h', 'dask to_parquet calls in to_parquet_dask', len(wcalls), 1)
+    for c in wcalls:
+        a0 = c.args[0]
+        ok = isinstance(a0, ast.Name) and a0.id == fparam and not rebinds
+        R.check(ok, 'C11.h', tw, rebinds[0] if rebinds else c, 'the frame handed to dask\'s to_parquet is the caller\'s frame, unchanged',
+                f'`{norm(rebinds[0]) if rebinds else norm(a0)}`: the frame that is written is not the caller\'s frame (partitions or rows are selected before writing): rows of the dropped '
+                'partitions -- index, other columns, missing geometries -- are silently not written', construct='writer writes the given frame')
     # no global re-sort of the combined list afterwards
     plist = None
     for lp in astq.own_nodes(pr, ast.For):
